@@ -421,6 +421,10 @@ class Zeroconf(QuietLogger):
         for i in range(_REGISTER_BROADCASTS):
             if i != 0:
                 await asyncio.sleep(millis_to_seconds(interval))
+                if ttl != 0 and self.registry.async_get_info_name(info.name) is not info:
+                    # Withdrawn or replaced while we slept: announcing it again
+                    # would bring it back after its goodbyes
+                    return
             self.async_send(self.generate_service_broadcast(info, ttl, broadcast_addresses))
 
     def generate_service_broadcast(
